@@ -100,6 +100,16 @@ func itoa(n int) string {
 func Race(script string, dir, name string, timeout time.Duration, seed int, all bool) Result {
 	file := filepath.Join(dir, name+".smt2")
 	_ = os.WriteFile(file, []byte(script), 0o644)
+	if !all {
+		// stage 1: the solver that decides most obligations, alone and briefly; only undecided ones are raced
+		c1, cancel1 := context.WithTimeout(context.Background(), 1500*time.Millisecond)
+		r := run1(c1, solvers[0], file, seed)
+		cancel1()
+		if r.Answer == "unsat" || r.Answer == "sat" {
+			r.All = map[string]string{r.Solver: r.Answer}
+			return r
+		}
+	}
 	ctx, cancel := context.WithTimeout(context.Background(), timeout)
 	defer cancel()
 	ch := make(chan Result, len(solvers))
